@@ -1,0 +1,72 @@
+//go:build verif
+
+package dsstate
+
+// Contracts for the govc verifier (/verif). Comment-only.
+
+// ---- assumed: go-datastore as a finite map (ghost), written keys tracked ----
+//@ ghost var dstore map[ds.Key][]byte
+//@ ghost var written set[ds.Key]
+
+//@ extern ds.Write.Put(key, value)
+//@   ensures err == nil ==> haskey(dstore, key) && dstore[key] == value && in(key, written)
+//@   ensures err == nil ==> forall k ds.Key :: k != key ==> (haskey(dstore, k) <==> haskey(old(dstore), k)) && dstore[k] == old(dstore)[k] && (in(k, written) <==> in(k, old(written)))
+//@   ensures err != nil ==> dstore == old(dstore) && written == old(written)
+//@   modifies dstore, written
+
+//@ extern ds.Write.Delete(key)
+//@   ensures err == nil ==> !haskey(dstore, key) && (forall k ds.Key :: k != key ==> (haskey(dstore, k) <==> haskey(old(dstore), k)) && dstore[k] == old(dstore)[k])
+//@   ensures err != nil ==> dstore == old(dstore)
+//@   ensures err == ds.ErrNotFound ==> !haskey(old(dstore), key)
+//@   modifies dstore
+
+//@ extern ds.Read.Get(key)
+//@   ensures err == nil ==> haskey(dstore, key) && res == dstore[key]
+//@   ensures !haskey(dstore, key) ==> err == ds.ErrNotFound
+//@   ensures err == ds.ErrNotFound ==> !haskey(dstore, key)
+//@   modifies nothing
+
+// keys of this state live under its namespace; the key of a CID is a function of namespace and CID
+//@ spec func keyOf(st *State, c cid.Cid) ds.Key = uf("dsKeyOf", "ds.Key", st.namespace, c)
+//@ spec func inNS(st *State, k ds.Key) bool = uf("dsInNamespace", "bool", st.namespace, k)
+//@ spec func enc(p api.Pin) []byte = uf("pinEncoding", "[]byte", p)
+
+//@ func (st *State) key
+//@   opts trusted
+//@   ensures res == keyOf(st, c) && inNS(st, res)
+//@   modifies nothing
+
+//@ func (st *State) serializePin
+//@   opts trusted
+//@   ensures err == nil ==> res == enc(*c)
+//@   modifies nothing
+
+//@ extern ds.Key.Child(k2)
+//@   ensures uf("dsInNamespace", "bool", self, res)
+
+// ---- C01: one operation changes exactly the entry of its CID ----
+// "pin inserts or replaces the entry for its CID"
+//@ func (st *State) Add
+//@   property C01
+//@   ensures err == nil ==> haskey(dstore, keyOf(st, c.Cid)) && dstore[keyOf(st, c.Cid)] == enc(*c)
+//@   ensures err == nil ==> forall k ds.Key :: k != keyOf(st, c.Cid) ==> (haskey(dstore, k) <==> haskey(old(dstore), k)) && dstore[k] == old(dstore)[k]
+//@   ensures err != nil ==> dstore == old(dstore)
+//@   modifies dstore, written
+
+// "unpin deletes it" (an absent CID: unchanged, nil)
+//@ func (st *State) Rm
+//@   property C01
+//@   ensures err == nil ==> !haskey(dstore, keyOf(st, c))
+//@   ensures forall k ds.Key :: k != keyOf(st, c) ==> (haskey(dstore, k) <==> haskey(old(dstore), k)) && dstore[k] == old(dstore)[k]
+//@   ensures err != nil ==> dstore == old(dstore)
+//@   modifies dstore
+
+// ---- C01/C14: "a peer that has caught up by installing a snapshot holds exactly the result" ----
+//@ func (st *State) Unmarshal
+//@   property C01 C14
+//@   requires forall k ds.Key :: !in(k, written)
+//@   ensures [only-the-snapshot-remains] err == nil ==> forall k ds.Key :: haskey(dstore, k) && inNS(st, k) ==> in(k, written)
+//@   ensures [writes-stay-in-namespace] forall k ds.Key :: in(k, written) ==> inNS(st, k)
+//@   loop 1 (for)
+//@     invariant forall k ds.Key :: in(k, written) ==> inNS(st, k)
+//@   modifies dstore, written, heap(serialEntry)
